@@ -3,6 +3,7 @@ package props
 import (
 	"bytes"
 	"fmt"
+	"strings"
 	"testing"
 	"time"
 
@@ -34,7 +35,13 @@ type poolCall struct {
 }
 
 func sameResult(op wire.Op, a, b HRes) string {
-	if ea, eb := errOutcome(a.Err), errOutcome(b.Err); ea != eb {
+	ea, eb := errOutcome(a.Err), errOutcome(b.Err)
+	if strings.HasPrefix(ea, "error:") && strings.HasPrefix(eb, "error:") {
+		// both failed: which error the pool reports after its retries, and how many replies
+		// were handed over before it, is not part of the result
+		return ""
+	}
+	if ea != eb {
 		return fmt.Sprintf("pool returned %s, direct connection returned %s", ea, eb)
 	}
 	if len(a.Hits) != len(b.Hits) || len(a.Miss) != len(b.Miss) {
@@ -233,6 +240,15 @@ func setupPool(w *kernel.World, p Plan, res *Result) *poolEnv {
 		e.tier.Fake.Store.Set(k, v, uint32(70+i), 0)
 		base.Fake.Store.Set(k, v, uint32(70+i), 0)
 	}
+	// keys the backend persistently refuses (busy): the same on both backends
+	refuse := func(key string) uint16 {
+		if strings.HasPrefix(key, "busy-") {
+			return 0x85
+		}
+		return 0
+	}
+	e.tier.Fake.Refuse = refuse
+	base.Fake.Refuse = refuse
 	hc := memcached.Batched(e.tier.Addr, poolOpts(p))
 	// the first handler construction creates the relay and its first connection; that
 	// blocks on the dial, which the kernel has to release, so it runs on a task goroutine
@@ -284,6 +300,26 @@ func execC06(t *testing.T, p Plan, src kernel.Source) Result {
 		if res.Infra != "" {
 			return
 		}
+		// growth prelude: a second of traffic per round lets the monitor add a connection
+		// per round, so that the programs then run on a pool of several connections
+		if n := int(p.X["grow"]); n > 0 {
+			warm := &poolTask{name: "warm", h: e.tasks[0].h}
+			saved := e.tasks
+			e.tasks = []*poolTask{warm}
+			for i := 0; i < n; i++ {
+				warm.ops = append(warm.ops, wire.Op{Kind: "get", Keys: []string{"shared0"}, Quiets: []bool{false}, Opaque: uint32(900 + i)})
+				ok, why := e.drive(nil, time.Duration(max(p.X["batch_delay_us"], int64(50)))*time.Microsecond, 3*time.Second)
+				if !ok {
+					e.violate("hang", "call", "growth prelude, round %d: %s", i, why)
+					return
+				}
+				w.Advance(time.Duration(p.X["eval_s"])*time.Second + time.Millisecond)
+				w.Interleave = false
+				w.Settle()
+				w.Interleave = true
+			}
+			e.tasks = saved
+		}
 		tick := time.Duration(max(p.X["batch_delay_us"], int64(50))) * time.Microsecond
 		long := int(p.X["long_ticks"])
 		extra := func() []kernel.Event {
@@ -298,7 +334,7 @@ func execC06(t *testing.T, p Plan, src kernel.Source) Result {
 			e.violate("hang", "call", "%s", why)
 			return
 		}
-		res.probe(fmt.Sprintf("pool_conns_%d", min(len(e.tier.Conns), 4)))
+		res.probe(fmt.Sprintf("pool_conns_%d", min(len(e.tier.Conns), 8)))
 		e.compareWithBaseline("differs")
 	})
 }
@@ -338,6 +374,9 @@ func (g *gen) poolOp(caller int, keys []string, opq *uint32, allowAppend bool) w
 		op.Key = ""
 		n := 2 + g.n(5)
 		all := append(append([]string{}, keys...), "shared0", "shared1", "shared2", fmt.Sprintf("c%d-never", caller))
+		if g.busy {
+			all = append(all, fmt.Sprintf("busy-c%d", caller))
+		}
 		for i := 0; i < n; i++ {
 			op.Keys = append(op.Keys, pick(g, all))
 			op.Quiets = append(op.Quiets, g.p(1, 2))
@@ -365,7 +404,12 @@ func (g *gen) poolOp(caller int, keys []string, opq *uint32, allowAppend bool) w
 }
 
 func genPoolPlan(seed uint64, prop string, allowAppend bool) (Plan, *gen) {
+	return genPoolPlanOpt(seed, prop, allowAppend, false)
+}
+
+func genPoolPlanOpt(seed uint64, prop string, allowAppend, busy bool) (Plan, *gen) {
 	g := newGen(seed)
+	g.busy = busy
 	p := Plan{Prop: prop, Seed: seed, Seg: pick(g, []int{0, 0, 2})}
 	p.X = map[string]int64{
 		"batch_size":     int64(pick(g, []int{1, 2, 3, 5, 10, 16})),
@@ -396,7 +440,30 @@ func genPoolPlan(seed uint64, prop string, allowAppend bool) (Plan, *gen) {
 }
 
 func genC06(seed uint64, tier string) Plan {
-	p, _ := genPoolPlan(seed, "C06", true)
+	g0 := newGen(seed ^ 0x60606)
+	busy := g0.p(1, 3)
+	p, _ := genPoolPlanOpt(seed, "C06", true, busy)
+	if g0.p(1, 4) {
+		// a grown pool: batch size 1 makes every second with traffic an overloaded one
+		p.X["batch_size"] = 1
+		p.X["eval_s"] = 1
+		p.X["grow"] = int64(2 + g0.n(6))
+	}
+	if busy {
+		// some single-key commands on a refused key as well
+		for c := range p.Progs {
+			if g0.p(1, 2) {
+				k := fmt.Sprintf("busy-c%d", c)
+				op := pick(g0, []wire.Op{
+					{Kind: "get", Keys: []string{k}, Quiets: []bool{false}, Opaque: uint32(5000 + c)},
+					{Kind: "set", Key: k, Data: []byte("never stored"), Opaque: uint32(5000 + c)},
+					{Kind: "delete", Key: k, Opaque: uint32(5000 + c)},
+					{Kind: "touch", Key: k, TTL: 10, Opaque: uint32(5000 + c)},
+				})
+				p.Progs[c] = append(p.Progs[c], op)
+			}
+		}
+	}
 	return p
 }
 
@@ -407,7 +474,7 @@ func init() {
 	register(&Prop{
 		ID: "C06", Gen: genC06, Exec: execC06,
 		Nontrivial: func(p Plan, r Result) bool { return len(p.Progs) > 1 },
-		Rule:       "handler-level: 1-64 caller tasks, each with its own real batched.Handler on one real pool (relay, monitor, batcher, reader), run scripted sequences (every command kind, hit and miss variants, multi-key gets with duplicate keys and mixed quiet flags, gete) on private keys plus shared read-only keys; pool options drawn per run (batch size 1-16, batch delay 50 us-5 ms, monitor interval 1 s or off, read/write buffer 64 B-64 KiB). The kernel chooses among call starts, the pooled connection each submit goes to, individual backend requests, reply segments, dial completions and clock ticks (batch-delay expiry vs. full batch). Oracle: every call's outcome, data, flags, per-request attribution (opaque/key) equals the same caller's sequence run through the direct handler on an identically prepared second backend; no call may block for 3 simulated seconds with nothing else enabled. Non-trivial = more than one caller; distinct = distinct plan hash",
+		Rule:       "handler-level: 1-64 caller tasks, each with its own real batched.Handler on one real pool (relay, monitor, batcher, reader), run scripted sequences (every command kind, hit and miss variants, multi-key gets with duplicate keys and mixed quiet flags, gete) on private keys plus shared read-only keys; pool options drawn per run (batch size 1-16, batch delay 50 us-5 ms, monitor interval 1 s or off, read/write buffer 64 B-64 KiB); in a quarter of the runs a prelude of 2-7 seconds with traffic lets the monitor grow the pool to 3-8 connections first; in a third of the runs each caller also addresses a key that both backends persistently refuse with 'busy' (an error is a result too: after its retries the pool must report one whenever the direct connection does). The kernel chooses among call starts, the pooled connection each submit goes to, individual backend requests, reply segments, dial completions and clock ticks (batch-delay expiry vs. full batch). Oracle: every call's outcome, data, flags, per-request attribution (opaque/key) equals the same caller's sequence run through the direct handler on an identically prepared second backend; no call may block for 3 simulated seconds with nothing else enabled. Non-trivial = more than one caller; distinct = distinct plan hash",
 		Real:       realPool,
 		Stub:       stubPool,
 		RunsQuick:  2500, RunsThorough: 60000, Chunk: 250,
